@@ -23,9 +23,11 @@ class Repeat(Operation):
 
     def backward_var(self, grad, index, **kwargs):
         a = self.variables[index].data  # type: np.ndarray
-        if isinstance(self._repeats, int) or len(self._repeats) == 1:
-            if not isinstance(self._repeats, int):
+        # `repeats` can be any integer-like scalar (e.g. a numpy integer), not only `int`
+        if np.ndim(self._repeats) == 0 or len(self._repeats) == 1:
+            if np.ndim(self._repeats) != 0:
                 (self._repeats,) = self._repeats
+            self._repeats = int(self._repeats)
 
             if not self._repeats:
                 # skip accumulation if `repeats` is all zeros
